@@ -56,20 +56,109 @@ def t_logging(src):
     return ast.unparse(t) + '\n'
 
 
+class _SwapIf(ast.NodeTransformer):
+    """if c: A else: B  ->  if not c: B else: A   (plain if/else only: no elif chains on either side)"""
+
+    def visit_If(self, node):
+        self.generic_visit(node)
+        if node.orelse and not (len(node.orelse) == 1 and isinstance(node.orelse[0], ast.If)) and \
+                not (len(node.body) == 1 and isinstance(node.body[0], ast.If)):
+            t = node.test
+            neg = t.operand if isinstance(t, ast.UnaryOp) and isinstance(t.op, ast.Not) else ast.UnaryOp(op=ast.Not(), operand=t)
+            return ast.copy_location(ast.If(test=neg, body=node.orelse, orelse=node.body), node)
+        return node
+
+
+def t_swapif(src):
+    t = _SwapIf().visit(ast.parse(src))
+    ast.fix_missing_locations(t)
+    return ast.unparse(t) + '\n'
+
+
+class _RetVar(ast.NodeTransformer):
+    """return EXPR  ->  _verif_result = EXPR; return _verif_result   (not in generators / lambdas)"""
+
+    def _block(self, stmts):
+        out = []
+        for st in stmts:
+            if isinstance(st, ast.Return) and st.value is not None and not isinstance(st.value, (ast.Name, ast.Constant)):
+                a = ast.copy_location(ast.Assign(targets=[ast.Name(id='_verif_result', ctx=ast.Store())], value=st.value), st)
+                r = ast.copy_location(ast.Return(value=ast.Name(id='_verif_result', ctx=ast.Load())), st)
+                out += [a, r]
+            else:
+                out.append(st)
+        return out
+
+    def generic_visit(self, node):
+        super().generic_visit(node)
+        for fld in ('body', 'orelse', 'finalbody'):
+            seq = getattr(node, fld, None)
+            if isinstance(seq, list) and seq and isinstance(seq[0], ast.stmt):
+                setattr(node, fld, self._block(seq))
+        if isinstance(node, ast.Try):
+            for h in node.handlers:
+                h.body = self._block(h.body)
+        return node
+
+
+def t_retvar(src):
+    t = _RetVar().visit(ast.parse(src))
+    ast.fix_missing_locations(t)
+    return ast.unparse(t) + '\n'
+
+
+class _RenameLocals(ast.NodeTransformer):
+    """Every plain local (assigned by name, not a parameter, not global/nonlocal, not used by nested functions) gets a suffix."""
+
+    def visit_FunctionDef(self, node):
+        self.generic_visit(node)
+        params = {a.arg for a in node.args.posonlyargs + node.args.args + node.args.kwonlyargs}
+        if node.args.vararg:
+            params.add(node.args.vararg.arg)
+        if node.args.kwarg:
+            params.add(node.args.kwarg.arg)
+        nested = set()
+        for n in ast.walk(node):
+            if n is not node and isinstance(n, (ast.FunctionDef, ast.Lambda, ast.ClassDef, ast.ListComp, ast.SetComp, ast.DictComp, ast.GeneratorExp)):
+                for m in ast.walk(n):
+                    if isinstance(m, ast.Name):
+                        nested.add(m.id)
+            if isinstance(n, (ast.Global, ast.Nonlocal)):
+                nested |= set(n.names)
+        uses_locals = any(isinstance(n, ast.Call) and isinstance(n.func, ast.Name) and n.func.id in ('locals', 'vars', 'eval', 'exec') for n in ast.walk(node))
+        if uses_locals:
+            return node
+        stored = {n.id for n in ast.walk(node) if isinstance(n, ast.Name) and isinstance(n.ctx, ast.Store)}
+        ren = {n for n in stored if n not in params and n not in nested and not n.startswith('__')}
+        for n in ast.walk(node):
+            if isinstance(n, ast.Name) and n.id in ren:
+                n.id = n.id + '_v'
+        return node
+
+
+def t_rename(src):
+    t = _RenameLocals().visit(ast.parse(src))
+    ast.fix_missing_locations(t)
+    return ast.unparse(t) + '\n'
+
+
 def main():
     import json
     props = [c['property_id'] for c in json.load(open(os.path.join(HERE, 'MANIFEST.json')))['checks']]
     known = {(e['property'], e['rule'], e['construct']) for e in load_known() if e.get('status') == 'finding'}
     src = sources()
     bad = 0
-    for name, fn in (('reformat', t_reformat), ('shift', t_shift), ('logging', t_logging)):
+    only = sys.argv[1:]
+    for name, fn in (('reformat', t_reformat), ('shift', t_shift), ('logging', t_logging), ('swapif', t_swapif), ('retvar', t_retvar), ('rename', t_rename)):
+        if only and name not in only:
+            continue
         overlay = {k: fn(v) for k, v in src.items()}
         for p in props:
             ctx, err = run_property(p, 'quick', '/repo', overlay=overlay, write=False)
             reps = [r for r in ctx.reports if r.key not in known]
             if err is not None or reps:
                 bad += 1
-                print('%-9s %s: %s' % (name, p, ('ANALYSIS-ERROR ' + str(err))[:300] if err is not None else reps[0].line()[:300]))
+                print('%-9s %s: %s' % (name, p, ('ANALYSIS-ERROR ' + str(err))[:300] if err is not None else " || ".join(r.line()[:260] for r in reps[:8])))
         print('%s done' % name)
     print('%d problems' % bad)
     return 1 if bad else 0
